@@ -798,3 +798,46 @@ def build14(m):
     c.trusted = False
     c.note = 'verified against the capture contract re:ListItem.continuation_pattern.match'
     c.prop = ['C01']
+
+
+def build15(m):
+    """Table.__init__ (C13): the header row reports the table's line, body row i the line
+    start + 2 + i - also for rows with identical text.  The rows are built by a comprehension of
+    constructor calls (pyvc listcomp_ctor)."""
+    def method(cls, name, c, static=False, classmethod_=False):
+        m.methods[(cls, name)] = c.key
+        c.is_static = static
+        c.is_classmethod = classmethod_
+        m.add(c)
+        return c
+    ROW = TRef('TableRow')
+    ALIGN = TList(TOpt(INT))
+    m.classes['TableRow'] = {'line_number': INT}
+    m.classes['Table'] = {'column_align': ALIGN, 'header': ROW, 'children': TList(ROW)}
+    ns = m.namespaces[MOD]
+    ns['TableRow'] = ('class', 'TableRow')
+    method('TableRow', '__init__', Contract(
+        MOD + ':TableRow.__init__', [('self', ROW), ('line', STR), ('row_align', TOpt(ALIGN), NONE_VAL), ('line_number', INT, mk_int(0))],
+        trusted=True, ensures=['self.line_number == line_number'], modifies=['self.line_number'],
+        note='TableRow.__init__ stores its line_number argument (first statements of the constructor); its cell '
+             'comprehension over zip_longest is outside the subset'))
+    method('Table', 'split_delimiter', Contract(
+        MOD + ':Table.split_delimiter', [('cls', cls_t('Table')), ('delimiter_row', STR)], returns=TList(STR),
+        trusted=True, pure=True, ensures=['forall(lambda i: len(result[i]) >= 1, 0, len(result))'],
+        note='A5: column_align_pattern.findall returns non-empty matches of :?-+:?'), classmethod_=True)
+    method('Table', 'parse_align', Contract(
+        MOD + ':Table.parse_align', [('column', STR)], returns=TOpt(INT), pure=True,
+        requires=['len(column) >= 1'],
+        ensures=[('is_none(result) or some(result) == 0 or some(result) == 1', ['C12', 'C08'])],
+        prop=['C01']), static=True)
+    method('Table', '__init__', Contract(
+        MOD + ':Table.__init__', [('self', TRef('Table')), ('match', TTuple([TList(STR), INT]))],
+        requires=['len(match[0]) >= 2'],
+        ensures=[("implies('-' in match[0][1], self.header.line_number == match[1])", 'C13'),
+                 ("implies('-' in match[0][1], len(self.children) == len(match[0]) - 2)", 'C13'),
+                 ("implies('-' in match[0][1], forall(lambda i: self.children[i].line_number == match[1] + 2 + i, 0, len(self.children)))", 'C13'),
+                 ("implies(not ('-' in match[0][1]), len(self.children) == len(match[0]) and "
+                  "forall(lambda i: self.children[i].line_number == match[1] + i, 0, len(self.children)))", 'C13')],
+        modifies=['self.column_align', 'self.header', 'self.children', 'N:TableRow.line_number'],
+        prop=['C01', 'C13'],
+        note='requires: Table.read returns at least the header and the delimiter row'))
